@@ -15,6 +15,8 @@ RULE = ('search p_translate: every drawable family of the zoo (styled rectangle/
 
 def search(tier, rng):
     n = 6000 if tier == 'quick' else 120000
+    for c in axis_line_cases():
+        yield J('p_translate', -17, -19, c)
     # regression inputs of the repaired defect l first
     yield 'p_translate 13 -11 tri 0 0 3 1 3 9 S 1 1 4 1'
     yield 'p_translate -7 -9 poly 0 0 3 0 0 3 0 0 6 S 0 1 4 1'
